@@ -27,6 +27,10 @@ class DeflateZipModel(JWEZipModel):
         value = decompressor.decompress(s, MAX_SIZE)
         if decompressor.unconsumed_tail:
             raise ExceededSizeError(f"Decompressed string exceeds {MAX_SIZE} bytes")
+        if len(value) >= MAX_SIZE and not decompressor.eof:
+            # all the input was consumed, but more output is pending inside
+            # the decompressor: the data was cut at MAX_SIZE
+            raise ExceededSizeError(f"Decompressed string exceeds {MAX_SIZE} bytes")
         return value
 
 
